@@ -131,7 +131,7 @@ def decide(pid, tier, seed, lean, findings, search_fn):
         lines.append(f"VIOLATION property={pid} replay={p}")
         return lines, 1, len(unknown_prop)
     if broken:
-        C.log("proof obligation or correspondence broken:", *broken[:5], sep="\n  ")
+        C.log("proof obligation or correspondence broken:\n  " + "\n  ".join(str(b) for b in broken[:5]))
         found = []
         try:
             found = [f for f in search_fn() if f["kind"] == "property" and not C.known_match(pid, f, known)]
